@@ -17,7 +17,7 @@ pub mod constants {
 //@item rodbus/src/common/frame.rs | constants::MAX_FRAME_LENGTH | execconst=MAX_FRAME_LENGTH == 260
 }
 
-//@item rodbus/src/common/frame.rs | TxId
+//@item rodbus/src/common/frame.rs | TxId | structeq
 impl TxId {
     pub closed spec fn v(&self) -> u16 { self.value }
 //@fn rodbus/src/common/frame.rs | TxId::new | tags=C11,C05
